@@ -120,20 +120,20 @@ Qed.
 Lemma su_f_root n : su_f n = [su_root n].
 Proof. unfold su_f, su_root. destruct (t_kids n) as [|c [|c2 r]]; reflexivity. Qed.
 
-Lemma su_restrict kl ke : forall n,
-  flat_map suL (olist (restrictG false kl np_true ke n)) = olist (restrictG true kl np_true ke n).
+Lemma su_restrict_gen kl ki ke : forall n,
+  flat_map suL (olist (restrictG false kl ki ke n)) = olist (restrictG true kl ki ke n).
 Proof.
   induction n as [i x l e ks IH] using tree_ind'.
   destruct ks as [|k r].
   - rewrite !restrictG_leaf. destruct (kl i x); [|reflexivity]. simpl. reflexivity.
-  - rewrite !restrictG_node. unfold np_true at 1 3. cbv iota.
-    assert (AB : flat_map suL (omap_list (restrictG false kl np_true ke) (k :: r)) =
-                 omap_list (restrictG true kl np_true ke) (k :: r)).
+  - rewrite !restrictG_node. destruct (ki i x); [|reflexivity].
+    assert (AB : flat_map suL (omap_list (restrictG false kl ki ke) (k :: r)) =
+                 omap_list (restrictG true kl ki ke) (k :: r)).
     { rewrite !omap_olist, flat_map_flat_map. apply flat_map_ext_in. rewrite Forall_forall in IH. exact IH. }
-    pose proof (suL_length (omap_list (restrictG false kl np_true ke) (k :: r))) as Hlen. rewrite AB in Hlen.
+    pose proof (suL_length (omap_list (restrictG false kl ki ke) (k :: r))) as Hlen. rewrite AB in Hlen.
     revert AB Hlen.
-    generalize (omap_list (restrictG false kl np_true ke) (k :: r)).
-    generalize (omap_list (restrictG true kl np_true ke) (k :: r)). intros B A AB Hlen.
+    generalize (omap_list (restrictG false kl ki ke) (k :: r)).
+    generalize (omap_list (restrictG true kl ki ke) (k :: r)). intros B A AB Hlen.
     destruct A as [|a [|a2 ar]].
     + simpl in AB. rewrite <- AB. destruct (ke i x); reflexivity.
     + unfold olist at 1. simpl flat_map. rewrite app_nil_r, suL_T, AB.
@@ -143,6 +143,10 @@ Proof.
       destruct B as [|b [|b2 br]]; try discriminate Hlen.
       reflexivity.
 Qed.
+
+Lemma su_restrict kl ke : forall n,
+  flat_map suL (olist (restrictG false kl np_true ke n)) = olist (restrictG true kl np_true ke n).
+Proof. apply su_restrict_gen. Qed.
 
 Lemma dropL_root bad t : dropL bad t = if drop_fails bad t then [] else [drop_root bad t].
 Proof. destruct t as [i x l e ks]. rewrite dropL_T. reflexivity. Qed.
@@ -235,7 +239,6 @@ Qed.
 
 (* --- prune_leaves_without_taxa / filter_leaf_nodes (recursive) --- *)
 
-Definition has_taxon : npred := fun _ x => match x with Some _ => true | None => false end.
 
 Lemma nnot_no_taxon : forall i x, nnot no_taxon i x = has_taxon i x.
 Proof. intros i [a|]; reflexivity. Qed.
@@ -374,9 +377,9 @@ Proof.
         apply andb_true_r. }
       assert (F2 : drop_root no_taxon t1 = T i None l e (omap_list (restrictG false (p1_keep lf taxa) np_true np_false) (k :: r))).
       { unfold drop_root. rewrite K. unfold t1. rewrite set_kids_set_kids. reflexivity. }
-      rewrite F1, F2 in D. rewrite restrictG_node. unfold np_true at 2. cbv iota. unfold np_false.
-      revert D. generalize (omap_list (restrictG false (p1_keep lf taxa) np_true (fun _ _ => false)) (k :: r)).
-      intros A D.
+      rewrite F1, F2 in D. rewrite restrictG_node.
+      revert D. generalize (omap_list (restrictG false (p1_keep lf taxa) np_true np_false) (k :: r)).
+      intros A D. unfold np_true at 2. cbv iota. unfold np_false.
       destruct (restrictG false (nnot no_taxon) np_true (nnot no_taxon) t1) as [x0|];
         destruct A as [|c [|c2 r2]]; simpl in D; try discriminate D; try (inversion D; reflexivity); reflexivity. }
     assert (R : restrictG sup (nnot no_taxon) np_true (nnot no_taxon) t1 =
